@@ -21,7 +21,8 @@ CONSTANT Family      \* "noti" | "subreq" | "resp"
 NPrefix == {"nil", "empty", "target", "target_origin", "target_origin_meta", "target_elems", "target_meta", "target_element"}
 NPath   == {"nil", "empty", "meta", "meta_sync", "meta_connected", "meta_connectError", "meta_leaves",
             "normal", "keyed", "glob", "element"}
-NVal    == {"nil", "no_arm", "int", "string", "bool", "leaflist", "json", "decimal_nil", "dep_json", "dep_bytes"}
+NVal    == {"nil", "no_arm", "int", "string", "bool", "leaflist", "json", "decimal_nil", "dep_json", "dep_bytes",
+            "decimal_big", "leaflist_nested"}
 NState  == {"empty", "leaf_int", "leaf_string", "branch_below", "leaf_above", "atomic_at_prefix"}
 NotiVectors ==
     [prefix : NPrefix, path : NPath, val : NVal, atomic : BOOLEAN, nup : 0..2, ndel : 0..1,
@@ -37,7 +38,10 @@ SubVectors ==
 RespVectors ==
     [resp : {"nil_response", "update", "sync", "error"}, prefix : {"nil", "target", "target_origin"},
      upath : {"nil", "empty", "normal", "keyed"},
-     val : {"nil", "no_arm", "int", "string", "leaflist", "json_bad", "any", "decimal_nil", "dep_json", "dep_bad", "dep_none"},
+     val : {"nil", "no_arm", "int", "string", "leaflist", "json_bad", "any", "decimal_nil", "dep_json", "dep_bad", "dep_none",
+            \* protobuf-valid but out-of-model field values: what a decoder must not trust
+            "decimal_big", "decimal_max", "leaflist_decimal", "leaflist_nested", "leaflist_empty", "double_nan", "uint_max",
+            "bytes_empty", "proto_bytes"},
      ndel : 0..1, collide : {"none", "leaf_then_branch", "branch_then_leaf"}]
 
 Vectors == CASE Family = "noti" -> NotiVectors [] Family = "subreq" -> SubVectors [] Family = "resp" -> RespVectors
